@@ -30,6 +30,7 @@ RECURSIVE SetToSeq(_)
 SetToSeq(S) == IF S = {} THEN <<>> ELSE LET x == CHOOSE x \in S : TRUE IN <<x>> \o SetToSeq(S \ {x})
 TreeEntrySeq == SetToSeq(TreeEntries(TreeKind))
 Row == CASE probe[1] = "hdr" -> [row |-> "hdr", entries |-> TreeEntrySeq]
+         [] probe[1] = "subcover" -> [row |-> "cover"]
          [] probe[1] = "tree" -> [row |-> "tree", min |-> RenderMin(probe[2]), full |-> RenderFull(probe[2]),
                                   shape |-> Shape(probe[2]), leaves |-> LeavesOf(probe[2]),
                                   vals |-> [i \in 1..Len(TreeEntrySeq) |-> NodeVals(probe[2], TreeEntrySeq[i])],
